@@ -228,6 +228,49 @@ def run(ctx):
             ctx.ok("C12-R4", "conv_gv rescales only frames whose switch is true (filter on the zipped switch)", cv.loc())
         else:
             ctx.fail("C12-R4", cv.path, "switch filter", "conv_gv does not restrict the rescaling to switched-on frames", cv.loc())
+    # the statistics the target is compared with are taken over the switched-on frames only
+    cg_ = cm.body_or_fail(ctx, p, "C12-R4", GV + "calc_gv")
+    if cg_ is not None:
+        ceb = ExprBuilder(cg_)
+        r = ceb.local(0)
+        from ..expr import resolve_upvars
+
+        def stat(e):
+            """(source is the switch-filtered zip of par and gv_switch, the mapped value, divisor text)"""
+            if not (e[0] == "bin" and e[1] == "Div" and e[2][0] == "call" and e[2][1].endswith("Iterator::sum")):
+                return None
+            m = e[2][2][0]
+            if not (m[0] == "call" and m[1].endswith("Iterator::map")):
+                return None
+            f, mc = m[2][0], m[2][1]
+            if not (f[0] == "call" and f[1].endswith("Iterator::filter") and show(f[2][0]) == "std::iter::Iterator::zip(self.par, self.gv_switch)"):
+                return None
+            fb = p.bodies.get(f[2][1][1][len("closure:"):]) if f[2][1][0] == "agg" else None
+            mb = p.bodies.get(mc[1][len("closure:"):]) if mc[0] == "agg" else None
+            if fb is None or mb is None:
+                return None
+            fr = ExprBuilder(fb).local(0)
+            if not (fr[0] == "field" and fr[2] == "1" and fr[1][0] == "arg"):
+                return None
+            return resolve_upvars(p, mb, ExprBuilder(mb).local(0)), show(e[3])
+        okst = False
+        why = show(r)[:200]
+        if r[0] == "agg" and len(r[2]) == 2:
+            s0, s1 = stat(r[2][0]), stat(r[2][1])
+            if s0 and s1:
+                v0, d0 = s0
+                v1, d1 = s1
+                mean_ok = v0[0] == "field" and v0[2] == "0" and v0[1][0] == "arg" and d0 == "(self.gv_length as f64)"
+                sq_ok = (v1[0] == "bin" and v1[1] == "Mul" and v1[2] == v1[3] and v1[2][0] == "bin" and v1[2][1] == "Sub" and
+                         v1[2][2][0] == "field" and v1[2][2][2] == "0" and v1[2][3] == r[2][0] and d1 == "(self.gv_length as f64)")
+                okst = mean_ok and sq_ok
+                why = "mean over filtered frames / gv_length=%s, variance = sum (x - mean)^2 over the same frames / gv_length=%s" % (mean_ok, sq_ok)
+            else:
+                why = "a statistic is not sum(map(filter(zip(self.par, self.gv_switch), |(_, sw)| sw), ..)) / gv_length"
+        if okst:
+            ctx.ok("C12-R4", "calc_gv: mean and variance are sums over zip(par, gv_switch) filtered by the switch, divided by gv_length", cg_.loc())
+        else:
+            ctx.fail("C12-R4", cg_.path, "statistics frames", "the GV statistics are not taken over exactly the switched-on frames: %s" % why, cg_.loc())
     ns = cm.body_or_fail(ctx, p, "C12-R4", GV + "next_step")
     if ns is not None:
         eb = ExprBuilder(ns)
